@@ -63,6 +63,18 @@ CHECKS.update({
   text="All forests <=3/4 nodes x 3 decorations: every node of every kind as Exec starting cursor for ~190 relative expressions (vs. reference at context (n,1,1)); 30 prefixes x 40 suffixes: Exec(root,P/R) against the union of Exec(n,R); P/f() against f(P) for the 7 context-dependent builtins.",
   note="Unmarshal tag context is covered in C19.",
   ref="2 C18"),
+ "C11": dict(
+  level="exploration",
+  technique="bounded-exhaustive enumeration of binding environments x documents x expressions against the reference evaluated under the same bindings; call logs of recording user functions compared",
+  text="27 binding environments (two prefixes each unbound/urn:u/urn:v incl. aliases x three function libraries incl. user count()/true() shadowing builtins; variables of all four types in three namespaces) x all forests <=3/4 nodes with namespaced elements/attributes x 85 expressions using prefixed names, variables and calls; results and the (arguments, context, position, size) observed by user functions compared with the reference.",
+  note="Assumes the library's documented 0-based ContextPosition(). Unbound names only in positions every evaluator must evaluate.",
+  ref="2 C11"),
+ "C12": dict(
+  level="exploration",
+  technique="bounded-exhaustive enumeration of documents x context nodes of every kind x name/count/lang expressions against the reference",
+  text="All forests <=3/4 nodes x 5 decorations: 100 name()/local-name()/namespace-uri()/count() expressions from every node of every kind; 106 documents with xml:lang placements over 15 tag values x 50 lang() expressions from every node.",
+  note="Trusted: refxp.NodeNames/Lang.",
+  ref="2 C12"),
 })
 
 NOT_YET = {}
